@@ -263,7 +263,11 @@ def get_fn_ast(fn: Callable) -> ast.FunctionDef:
 
     """
     tree = ast.parse(textwrap.dedent(get_fn_source(fn)))
-    if not isinstance(fn_def := tree.body[0], ast.FunctionDef):
+    # The source of a lambda is the statement it is written in. When that statement is a
+    # function definition (default value, decorator argument) it is not the lambda's own.
+    if getattr(fn, "__name__", None) == "<lambda>" or not isinstance(
+        fn_def := tree.body[0], ast.FunctionDef
+    ):
         msg = "Not a function"
         raise TypeError(msg)
     return fn_def
